@@ -1,0 +1,17 @@
+#ifndef TFHE_VERIF_HOOKS_H
+#define TFHE_VERIF_HOOKS_H
+/*
+ * Observation hooks for external verification harnesses.  Compiled in only with -DTFHE_VERIF;
+ * without it every TFHE_VERIF_EVENT expands to nothing.  When compiled in, an event is delivered
+ * only if the embedding program defines the function pointer (it is a weak symbol, null by default).
+ */
+#ifdef TFHE_VERIF
+extern "C" {
+typedef void (*tfhe_verif_hook_t)(const char *event, const void *obj, const void *buf, long a, long b);
+extern tfhe_verif_hook_t tfhe_verif_hook __attribute__((weak));
+}
+#define TFHE_VERIF_EVENT(ev, obj, buf, a, b) do { if (&tfhe_verif_hook && tfhe_verif_hook) tfhe_verif_hook(ev, obj, buf, a, b); } while (0)
+#else
+#define TFHE_VERIF_EVENT(ev, obj, buf, a, b)
+#endif
+#endif
